@@ -340,8 +340,12 @@ class ConnInterp:
                 default = a.base[2] if len(a.base) > 2 else None
                 newbase = ("lit", 0) if by.v[1] == default else ("unknown",)
             elif by.kind == "min_valid" and a.base[0] == "decl" and sign == -1 and (len(a.base) > 2 and a.base[2] is None):
-                # base not declared: the smallest index in use is taken as the base (the format gives no better rule)
-                newbase = ("lit", 0)
+                # base not declared: the smallest index in use is taken as the base (the format gives no better rule) -
+                # but only on a path where the start_index attribute is known to be absent: a declared base (0 included) wins
+                if facts.get(("attr", a.base[1], "start_index")) is False or facts.get(("attr", "*", "start_index")) is False:
+                    newbase = ("lit", 0)
+                else:
+                    newbase = ("smallest index in use, on a path where a start_index attribute may be declared (a declared 0 is ignored)",)
             elif by.kind == "min_all" and sign == -1:
                 newbase = ("lit", 0) if a.sent in (NONE,) else ("unknown",)
                 if a.sent not in (NONE,):
@@ -592,6 +596,10 @@ class ConnInterp:
                 return v.v == truth
             if isinstance(v, Scal) and v.kind == "none":
                 return not truth
+            if isinstance(v, Scal) and v.kind == "base_of_or" and v.v[1] is None and truth:
+                # x = attrs.get("start_index"); if x:   -> declared and non-zero.  (The false branch proves nothing: absent, or declared as 0.)
+                st.env[test.id] = Scal("base_of", v.v[0])
+                st.facts[("attr", v.v[0], "start_index")] = True
             return True
         if isinstance(test, ast.BoolOp):
             if (isinstance(test.op, ast.And) and truth) or (isinstance(test.op, ast.Or) and not truth):
@@ -641,6 +649,13 @@ class ConnInterp:
             if isinstance(op, (ast.Is, ast.IsNot)) and isinstance(r, ast.Constant) and r.value is None:
                 isnone = truth if isinstance(op, ast.Is) else not truth
                 v = self.ev(l, st, f, depth)
+                if isinstance(v, Scal) and v.kind == "base_of_or" and v.v[1] is None:
+                    # x = attrs.get("start_index"); if x is None / is not None: exactly the attribute's absence / presence
+                    st.facts[("attr", v.v[0], "start_index")] = not isnone
+                    st.facts[("attr", "*", "start_index")] = not isnone
+                    if isinstance(l, ast.Name):
+                        st.env[l.id] = Scal("none") if isnone else Scal("base_of", v.v[0])
+                    return True
                 if isinstance(v, Scal) and v.kind == "none":
                     return isnone
                 if isinstance(v, Scal) and v.kind in ("str", "lit", "bool"):
